@@ -5,7 +5,7 @@ from .common import declare
 RULES = ['SIBLING-SIG', 'DASK-REGISTRY', 'MRO-INIT', 'SCATTER-GATHER', 'HOLD-BEFORE-ESCAPE', 'REL-AFTER-AWAIT', 'LINEAR-HOLD',
          'NO-REL-ON-FAIL', 'META-PASS', 'PROPAGATE', 'EMIT-SIG']
 FLOORS = {'SIBLING-SIG': 9, 'DASK-REGISTRY': 10, 'MRO-INIT': 9, 'SCATTER-GATHER': 5, 'HOLD-BEFORE-ESCAPE': 2, 'REL-AFTER-AWAIT': 2,
-          'LINEAR-HOLD': 2, 'META-PASS': 3, 'PROPAGATE': 8, 'EMIT-SIG': 5}
+          'LINEAR-HOLD': 2, 'META-PASS': 2, 'PROPAGATE': 8, 'EMIT-SIG': 5}
 
 META = {
     'level': "Static sibling cross-check of the Dask re-implementations against their core counterparts: after rewriting "
